@@ -21,17 +21,26 @@ def acked (s : St) (n : Name) : Prop := ∃ v ∈ s.hist, v.refName = some n
 namespace, group, version, kind) -/
 def XR.foreignTo (x : XR) (me : CRef) : Prop := ∃ r, x.cref = some r ∧ r ≠ me
 
-/-- XR `n` exists and its claimRef names another claim -/
-def foreignAt (s : St) (n : Name) : Prop := ∃ x, s.xrs n = some x ∧ x.foreignTo s.me
+/-- XR `n` exists and its claimRef names another claim, in a world WITHOUT other claims' controllers
+(`St.peers = false`). There the fact "not foreign" is stable (nobody but this controller sets a
+claimRef); in a world with peers nothing of the kind is (`foreignAt` is then constantly false and
+the guarantee about unconditional writes is void: see `SeenRv` for what remains). -/
+def foreignAt (s : St) (n : Name) : Prop := s.peers = false ∧ ∃ x, s.xrs n = some x ∧ x.foreignTo s.me
+
+/-- some state XR `n` ever had carried resourceVersion `v` and was not bound to another claim: what a
+thread knows after reading such a state; a write that carries `v` can only take effect on a state
+with the same claimRef (`Inv.rvU`), in every world -/
+def SeenRv (s : St) (n : Name) (v : Nat) : Prop := ∃ x, some x ∈ s.xhist n ∧ x.rv = v ∧ ¬ x.foreignTo s.me
 
 /-- XR `n` exists and its claimRef is exactly this claim's reference -/
 def boundAt (s : St) (n : Name) : Prop := ∃ x, s.xrs n = some x ∧ x.cref = some s.me
 
 /-- the ghost trace is well formed: every `create n` has an older `ack n` (or `n` was
 already recorded before the start), and no write ever hit a foreign-bound XR -/
-def TraceOk (P0 : Name → Prop) (me : CRef) : List Ev → Prop
+def TraceOk (P0 : Name → Prop) (strict : Prop) (me : CRef) : List Ev → Prop
   | [] => True
-  | e :: t => TraceOk P0 me t ∧ (∀ n, e = .create n → Ev.ack n ∈ t ∨ P0 n) ∧ (∀ n r, e = .xrWrite n (some r) → r = me)
+  | e :: t => TraceOk P0 strict me t ∧ (∀ n, e = .create n → Ev.ack n ∈ t ∨ P0 n) ∧
+      (∀ n r, e = .xrWrite n (some r) → strict → r = me) ∧ (∀ n r, e = .xrWriteG n (some r) → r = me)
 
 /-- newest-first history: strictly decreasing rv, set-once resourceRef -/
 def HistOk (l : List Claim) : Prop :=
@@ -45,7 +54,7 @@ structure Inv (P0 : Name → Prop) (s : St) : Prop where
   ackd : ∀ n, acked s n → Ev.ack n ∈ s.trace ∨ P0 n
   ackHist : ∀ n, Ev.ack n ∈ s.trace → acked s n
   p0 : ∀ n, P0 n → acked s n
-  trace : TraceOk P0 s.me s.trace
+  trace : TraceOk P0 (s.peers = false) s.me s.trace
   /-- every stored version of the claim is the same object: `cm.GetReference()` never changes -/
   idOk : ∀ v ∈ s.hist, v.id = s.me
   /-- the stored state of every XR name is the newest entry of its history -/
@@ -53,16 +62,28 @@ structure Inv (P0 : Name → Prop) (s : St) : Prop where
   /-- an XR that is bound to another claim now has been so in every state the name ever had:
   nobody but this controller creates XRs or sets a claimRef, and it only ever writes its own -/
   xfor : ∀ n, foreignAt s n → ∀ ox ∈ s.xhist n, ∃ x, ox = some x ∧ x.foreignTo s.me
+  /-- resourceVersions of XR states are below the counter … -/
+  xrvLt : ∀ n x, some x ∈ s.xhist n → x.rv < s.nextRv
+  /-- … and two states of a name with the same resourceVersion carry the same claimRef -/
+  rvU : ∀ n a b, some a ∈ s.xhist n → some b ∈ s.xhist n → a.rv = b.rv → a.cref = b.cref
 
 /-- `s'` is a possible future of `s`: what a thread learnt in `s` and may still rely on in `s'` -/
 structure Fut (s s' : St) : Prop where
   hist : ∀ v ∈ s.hist, v ∈ s'.hist
   notForeign : ∀ n, ¬ foreignAt s n → ¬ foreignAt s' n
+  /-- XR state histories only grow -/
+  xh : ∀ n ox, ox ∈ s.xhist n → ox ∈ s'.xhist n
+  me : s'.me = s.me
 
-theorem Fut.refl (s : St) : Fut s s := ⟨fun _ h => h, fun _ h => h⟩
+theorem Fut.refl (s : St) : Fut s s := ⟨fun _ h => h, fun _ h => h, fun _ _ h => h, rfl⟩
 
 theorem Fut.trans {a b c : St} (h1 : Fut a b) (h2 : Fut b c) : Fut a c :=
-  ⟨fun v h => h2.hist v (h1.hist v h), fun n h => h2.notForeign n (h1.notForeign n h)⟩
+  ⟨fun v h => h2.hist v (h1.hist v h), fun n h => h2.notForeign n (h1.notForeign n h),
+    fun n ox h => h2.xh n ox (h1.xh n ox h), h2.me.trans h1.me⟩
+
+theorem Fut.seen {s s' : St} (h : Fut s s') {n : Name} {v : Nat} (hs : SeenRv s n v) : SeenRv s' n v := by
+  obtain ⟨x, hx, hv, hnf⟩ := hs
+  exact ⟨x, h.xh n _ hx, hv, by rw [h.me]; exact hnf⟩
 
 theorem Fut.acked {s s' : St} (h : Fut s s') {n : Name} (ha : acked s n) : acked s' n := by
   obtain ⟨v, hv, hr⟩ := ha
@@ -74,10 +95,10 @@ def G (s : St) : Req → Prop
   | .getXR _ _ => True
   | .updClaimStatus _ => True
   | .updClaim c => ∃ v ∈ s.hist, v.rv = c.rv ∧ refExt v c
-  | .upgradeXR n _ _ => ¬ foreignAt s n
+  | .upgradeXR n rv _ => ¬ foreignAt s n ∧ SeenRv s n rv
   | .deleteXR n _ => ¬ foreignAt s n
   | .createXR n _ cref => acked s n ∧ cref = s.me
-  | .patchXR n _ cref => (acked s n ∧ ¬ foreignAt s n) ∧ cref = s.me
+  | .patchXR n rv cref => ((acked s n ∧ ¬ foreignAt s n) ∧ cref = s.me) ∧ ∀ v, rv = some v → SeenRv s n v
   | .applyXR n cref => (acked s n ∧ ¬ foreignAt s n) ∧ cref = s.me
 
 /-! ### history lemmas -/
@@ -131,7 +152,8 @@ theorem not_foreign_of_hist {P0 : Name → Prop} {s : St} (hi : Inv P0 s) {n : N
 /-! ### primitives preserve the invariant -/
 
 theorem inv_emit {P0 : Name → Prop} {s : St} (hi : Inv P0 s) (e : Ev)
-    (h1 : ∀ n, e = .create n → Ev.ack n ∈ s.trace ∨ P0 n) (h2 : ∀ n r, e = .xrWrite n (some r) → r = s.me)
+    (h1 : ∀ n, e = .create n → Ev.ack n ∈ s.trace ∨ P0 n) (h2 : ∀ n r, e = .xrWrite n (some r) → s.peers = false → r = s.me)
+    (h2g : ∀ n r, e = .xrWriteG n (some r) → r = s.me)
     (h3 : ∀ n, e = .ack n → acked s n) : Inv P0 (emit s e) where
   rvLt := hi.rvLt
   mono := hi.mono
@@ -146,31 +168,34 @@ theorem inv_emit {P0 : Name → Prop} {s : St} (hi : Inv P0 s) (e : Ev)
     · exact h3 n h.symm
     · exact hi.ackHist n h
   p0 := hi.p0
-  trace := ⟨hi.trace, h1, h2⟩
+  trace := ⟨hi.trace, h1, h2, h2g⟩
   idOk := hi.idOk
   xcur := hi.xcur
   xfor := hi.xfor
+  xrvLt := hi.xrvLt
+  rvU := hi.rvU
 
-theorem fut_emit (s : St) (e : Ev) : Fut s (emit s e) := ⟨fun _ h => h, fun _ h => h⟩
+theorem fut_emit (s : St) (e : Ev) : Fut s (emit s e) := ⟨fun _ h => h, fun _ h => h, fun _ _ h => h, rfl⟩
 
 theorem acked_pushClaim {s : St} {c : Claim} {n : Name} (h : acked s n) : acked (pushClaim s c).1 n := by
   obtain ⟨v, hv, hr⟩ := h
   exact ⟨v, List.mem_cons_of_mem _ hv, hr⟩
 
 theorem fut_pushClaim (s : St) (c : Claim) : Fut s (pushClaim s c).1 :=
-  ⟨fun _ h => List.mem_cons_of_mem _ h, fun _ h => h⟩
+  ⟨fun _ h => List.mem_cons_of_mem _ h, fun _ h => h, fun _ _ h => h, rfl⟩
 
 theorem pushClaim_resp_mem (s : St) (c : Claim) : (pushClaim s c).2 ∈ (pushClaim s c).1.hist :=
   List.mem_cons_self
 
-theorem traceOk_append_acks {P0 : Name → Prop} {me : CRef} {extra tr : List Ev} (h : TraceOk P0 me tr)
-    (he : ∀ e ∈ extra, ∃ n, e = Ev.ack n) : TraceOk P0 me (extra ++ tr) := by
+theorem traceOk_append_acks {P0 : Name → Prop} {strict : Prop} {me : CRef} {extra tr : List Ev} (h : TraceOk P0 strict me tr)
+    (he : ∀ e ∈ extra, ∃ n, e = Ev.ack n) : TraceOk P0 strict me (extra ++ tr) := by
   induction extra with
   | nil => exact h
   | cons e es ih =>
     obtain ⟨n, rfl⟩ := he e List.mem_cons_self
-    refine ⟨ih (fun e' h' => he e' (List.mem_cons_of_mem _ h')), ?_, ?_⟩
+    refine ⟨ih (fun e' h' => he e' (List.mem_cons_of_mem _ h')), ?_, ?_, ?_⟩
     · intro m hm; cases hm
+    · intro m r hm; cases hm
     · intro m r hm; cases hm
 
 /-- storing a new version `c` on top of the current one (while appending acknowledgement
@@ -190,7 +215,7 @@ theorem inv_pushClaim {P0 : Name → Prop} {s : St} (hi : Inv P0 s) {cur c : Cla
     exact ⟨v, List.mem_cons_of_mem _ hv, hr⟩
   refine
     { rvLt := ?_, mono := ?_, cur := ?_, bound := ?_, ackd := ?_, ackHist := ?_, p0 := ?_, trace := ?_,
-      idOk := ?_, xcur := hi.xcur, xfor := hi.xfor }
+      idOk := ?_, xcur := hi.xcur, xfor := hi.xfor, xrvLt := ?_, rvU := hi.rvU }
   · intro v hv
     simp only [pushClaim] at hv ⊢
     rcases List.mem_cons.mp hv with rfl | hv
@@ -238,6 +263,10 @@ theorem inv_pushClaim {P0 : Name → Prop} {s : St} (hi : Inv P0 s) {cur c : Cla
     rcases List.mem_cons.mp hv with rfl | hv
     · exact hid
     · exact hi.idOk v hv
+  · intro n x hx
+    have := hi.xrvLt n x hx
+    simp only [pushClaim]
+    omega
 
 /-- special case: no event, same reference as the current version -/
 theorem inv_pushClaim_same {P0 : Name → Prop} {s : St} (hi : Inv P0 s) {cur c : Claim}
@@ -250,10 +279,10 @@ theorem inv_pushClaim_same {P0 : Name → Prop} {s : St} (hi : Inv P0 s) {cur c 
 
 theorem fut_pushClaim' (s : St) (extra : List Ev) (c : Claim) :
     Fut s (pushClaim { s with trace := extra ++ s.trace } c).1 :=
-  ⟨fun _ h => List.mem_cons_of_mem _ h, fun _ h => h⟩
+  ⟨fun _ h => List.mem_cons_of_mem _ h, fun _ h => h, fun _ _ h => h, rfl⟩
 
 theorem foreignAt_putXR_iff (s : St) (n : Name) (x : XR) (m : Name) :
-    foreignAt (putXR s n x).1 m ↔ (if m = n then x.foreignTo s.me else foreignAt s m) := by
+    foreignAt (putXR s n x).1 m ↔ (if m = n then (s.peers = false ∧ x.foreignTo s.me) else foreignAt s m) := by
   unfold foreignAt putXR XR.foreignTo
   by_cases h : m = n
   · simp [h]
@@ -267,7 +296,7 @@ theorem boundAt_putXR_iff (s : St) (n : Name) (x : XR) (m : Name) :
   · simp [h]
 
 theorem inv_putXR {P0 : Name → Prop} {s : St} (hi : Inv P0 s) (n : Name) (x : XR)
-    (hb : x.cref = some s.me → acked s n) (hfo : x.foreignTo s.me → foreignAt s n) :
+    (hb : x.cref = some s.me → acked s n) (hfo : s.peers = false → x.foreignTo s.me → foreignAt s n) :
     Inv P0 (putXR s n x).1 where
   rvLt := fun v hv => by have := hi.rvLt v hv; simp only [putXR]; omega
   mono := hi.mono
@@ -294,24 +323,56 @@ theorem inv_putXR {P0 : Name → Prop} {s : St} (hi : Inv P0 s) (n : Name) (x : 
     · subst h
       simp at hm hox
       rcases hox with rfl | hox
-      · exact ⟨_, rfl, hm⟩
-      · exact hi.xfor m (hfo hm) ox hox
+      · exact ⟨_, rfl, hm.2⟩
+      · exact hi.xfor m (hfo hm.1 hm.2) ox hox
     · simp [h] at hm hox
       exact hi.xfor m hm ox hox
+  xrvLt := fun m y hy => by
+    simp only [putXR] at hy ⊢
+    by_cases h : m = n
+    · subst h
+      simp at hy
+      rcases hy with rfl | hy
+      · simp
+      · have := hi.xrvLt m y hy; omega
+    · simp [h] at hy
+      have := hi.xrvLt m y hy; omega
+  rvU := fun m a b ha hb' hab => by
+    simp only [putXR] at ha hb'
+    by_cases h : m = n
+    · subst h
+      simp at ha hb'
+      rcases ha with rfl | ha
+      · rcases hb' with rfl | hb'
+        · rfl
+        · have := hi.xrvLt m b hb'; simp at hab; omega
+      · rcases hb' with rfl | hb'
+        · have := hi.xrvLt m a ha; simp at hab; omega
+        · exact hi.rvU m a b ha hb' hab
+    · simp [h] at ha hb'
+      exact hi.rvU m a b ha hb' hab
 
 /-- rewriting XR `n` keeps every "not foreign" fact if the new content is not foreign-bound
 unless the old one was -/
-theorem fut_putXR (s : St) (n : Name) (x : XR) (h : x.foreignTo s.me → foreignAt s n) : Fut s (putXR s n x).1 where
+theorem fut_putXR (s : St) (n : Name) (x : XR) (h : s.peers = false → x.foreignTo s.me → foreignAt s n) : Fut s (putXR s n x).1 where
   hist := fun _ hv => hv
   notForeign := fun m hm hf => by
     rw [foreignAt_putXR_iff] at hf
     by_cases e : m = n
-    · subst e; simp at hf; exact hm (h hf)
+    · subst e; simp at hf; exact hm (h hf.1 hf.2)
     · simp [e] at hf; exact hm hf
+  xh := fun m ox hox => by
+    simp only [putXR]
+    by_cases e : m = n
+    · simp [e]; exact Or.inr (e ▸ hox)
+    · simp [e]; exact hox
+  me := rfl
 
 theorem inv_setXR {P0 : Name → Prop} {s : St} (hi : Inv P0 s) (n : Name) (ox : Option XR)
     (hb : ∀ x, ox = some x → x.cref = some s.me → acked s n)
-    (hfo : ∀ x, ox = some x → x.foreignTo s.me → foreignAt s n) : Inv P0 (setXR s n ox) where
+    (hfo : ∀ x, ox = some x → s.peers = false → x.foreignTo s.me → foreignAt s n)
+    (hrv : ∀ x, ox = some x → x.rv < s.nextRv ∧ ∀ b, some b ∈ s.xhist n → b.rv = x.rv → b.cref = x.cref) :
+    Inv P0 (setXR s n ox) where
   rvLt := hi.rvLt
   mono := hi.mono
   cur := hi.cur
@@ -330,35 +391,77 @@ theorem inv_setXR {P0 : Name → Prop} {s : St} (hi : Inv P0 s) (n : Name) (ox :
     by_cases h : m = n
     · simp [h]
     · simp [h]; exact hi.xcur m
-  xfor := fun m ⟨x, hx, hc⟩ oy hoy => by
+  xfor := fun m ⟨hp, x, hx, hc⟩ oy hoy => by
     simp only [setXR] at hx hoy
     by_cases h : m = n
     · subst h
       simp at hx hoy
       rcases hoy with rfl | hoy
       · exact ⟨x, hx, hc⟩
-      · exact hi.xfor m (hfo x hx hc) oy hoy
+      · exact hi.xfor m (hfo x hx hp hc) oy hoy
     · simp [h] at hx hoy
-      exact hi.xfor m ⟨x, hx, hc⟩ oy hoy
+      exact hi.xfor m ⟨hp, x, hx, hc⟩ oy hoy
+  xrvLt := fun m y hy => by
+    simp only [setXR] at hy ⊢
+    by_cases h : m = n
+    · subst h
+      simp at hy
+      rcases hy with rfl | hy
+      · exact (hrv y rfl).1
+      · exact hi.xrvLt m y hy
+    · simp [h] at hy
+      exact hi.xrvLt m y hy
+  rvU := fun m a b ha hb' hab => by
+    simp only [setXR] at ha hb'
+    by_cases h : m = n
+    · subst h
+      simp at ha hb'
+      rcases ha with rfl | ha
+      · rcases hb' with hb' | hb'
+        · cases hb'; rfl
+        · exact ((hrv a rfl).2 b hb' hab.symm).symm
+      · rcases hb' with rfl | hb'
+        · exact (hrv b rfl).2 a ha hab
+        · exact hi.rvU m a b ha hb' hab
+    · simp [h] at ha hb'
+      exact hi.rvU m a b ha hb' hab
 
 theorem fut_setXR (s : St) (n : Name) (ox : Option XR)
-    (h : ∀ x, ox = some x → x.foreignTo s.me → foreignAt s n) : Fut s (setXR s n ox) where
+    (h : ∀ x, ox = some x → s.peers = false → x.foreignTo s.me → foreignAt s n) : Fut s (setXR s n ox) where
   hist := fun _ hv => hv
-  notForeign := fun m hm ⟨x, hx, hc⟩ => by
+  notForeign := fun m hm ⟨hp, x, hx, hc⟩ => by
     simp only [setXR] at hx
     by_cases e : m = n
-    · subst e; simp at hx; exact hm (h x hx hc)
-    · simp [e] at hx; exact hm ⟨x, hx, hc⟩
+    · subst e; simp at hx; exact hm (h x hx hp hc)
+    · simp [e] at hx; exact hm ⟨hp, x, hx, hc⟩
+  xh := fun m oy hoy => by
+    simp only [setXR]
+    by_cases e : m = n
+    · simp [e]; exact Or.inr (e ▸ hoy)
+    · simp [e]; exact hoy
+  me := rfl
 
 /-! ### every API call preserves the invariant and is a "future" -/
 
 /-- a write to an XR that is not foreign-bound records a claimRef that is this claim's (or none) -/
 theorem was_me_of_not {s : St} {n : Name} {x : XR} (hx : s.xrs n = some x) (h : ¬ foreignAt s n) :
-    ∀ r, x.cref = some r → r = s.me := by
-  intro r hc
+    ∀ r, x.cref = some r → s.peers = false → r = s.me := by
+  intro r hc hp
   apply Classical.byContradiction
   intro hne
-  exact h ⟨x, hx, r, hc, hne⟩
+  exact h ⟨hp, x, hx, r, hc, hne⟩
+
+/-- a write that carries the resourceVersion of a state that was seen not to be foreign-bound, and that
+the server accepts, hits a state with the same claimRef: it records this claim's claimRef (or none) -/
+theorem was_me_of_seen {P0 : Name → Prop} {s : St} (hi : Inv P0 s) {n : Name} {x : XR} (hx : s.xrs n = some x)
+    (h : SeenRv s n x.rv) : ∀ r, x.cref = some r → r = s.me := by
+  intro r hc
+  obtain ⟨y, hy, hrv, hnf⟩ := h
+  have hxm : some x ∈ s.xhist n := hx ▸ hi.xcur n
+  have heq : y.cref = x.cref := hi.rvU n y x hy hxm hrv
+  apply Classical.byContradiction
+  intro hne
+  exact hnf ⟨r, heq ▸ hc, hne⟩
 
 theorem not_foreignTo_of_cref {x : XR} {me : CRef} (h : x.cref = some me) : ¬ x.foreignTo me := by
   intro ⟨r, hr, hne⟩
@@ -366,25 +469,31 @@ theorem not_foreignTo_of_cref {x : XR} {me : CRef} (h : x.cref = some me) : ¬ x
   exact hne (Option.some.inj hr).symm
 
 theorem delete_core {P0 : Name → Prop} {s : St} (hi : Inv P0 s) {n : Name} {x : XR} (hx : s.xrs n = some x)
-    (x1 : XR) (hc : x1.cref = x.cref) :
-    Inv P0 (delState s n x x1) ∧ Fut s (delState s n x x1) ∧ (delState s n x x1).me = s.me := by
+    (x1 : XR) (hc : x1.cref = x.cref) (hr : x1.rv = x.rv) :
+    Inv P0 (delState s n x x1) ∧ Fut s (delState s n x x1) ∧ (delState s n x x1).me = s.me ∧
+      (delState s n x x1).peers = s.peers := by
   have hb : x1.cref = some s.me → acked s n := fun h => hi.bound n ⟨x, hx, hc ▸ h⟩
-  have hf : x1.foreignTo s.me → foreignAt s n := fun ⟨r, hr, hne⟩ => ⟨x, hx, r, hc ▸ hr, hne⟩
+  have hf : s.peers = false → x1.foreignTo s.me → foreignAt s n := fun hp ⟨r, hr, hne⟩ => ⟨hp, x, hx, r, hc ▸ hr, hne⟩
+  have hxm : some x ∈ s.xhist n := hx ▸ hi.xcur n
+  have hrv : x1.rv < s.nextRv ∧ ∀ b, some b ∈ s.xhist n → b.rv = x1.rv → b.cref = x1.cref :=
+    ⟨hr ▸ hi.xrvLt n x hxm, fun b hb' hbr => (hi.rvU n b x hb' hxm (hbr.trans hr)).trans hc.symm⟩
   unfold delState
   by_cases h1 : x1.fin = true
   · by_cases h2 : x1.deleting = true
     · simp only [h1, h2, if_true]
       by_cases h3 : x1 = x
       · simp only [h3, if_true]
-        exact ⟨hi, Fut.refl s, trivial⟩
+        exact ⟨hi, Fut.refl s, trivial, trivial⟩
       · simp only [h3, if_false]
         exact ⟨inv_setXR hi n _ (fun y hy hcy => by have := Option.some.inj hy; subst this; exact hb hcy)
-            (fun y hy hcy => by have := Option.some.inj hy; subst this; exact hf hcy),
-          fut_setXR s n _ (fun y hy hcy => by have := Option.some.inj hy; subst this; exact hf hcy), rfl⟩
+            (fun y hy hp hcy => by have := Option.some.inj hy; subst this; exact hf hp hcy)
+            (fun y hy => by have := Option.some.inj hy; subst this; exact hrv),
+          fut_setXR s n _ (fun y hy hp hcy => by have := Option.some.inj hy; subst this; exact hf hp hcy), rfl, rfl⟩
     · simp only [h1, h2, if_true]
-      exact ⟨inv_putXR hi n _ (fun h => hb h) (fun h => hf h), fut_putXR s n _ (fun h => hf h), rfl⟩
+      exact ⟨inv_putXR hi n _ (fun h => hb h) (fun hp h => hf hp h), fut_putXR s n _ (fun hp h => hf hp h), rfl, rfl⟩
   · simp only [h1]
-    exact ⟨inv_setXR hi n none (fun y hy => by cases hy) (fun y hy => by cases hy), fut_setXR s n none (fun y hy => by cases hy), rfl⟩
+    exact ⟨inv_setXR hi n none (fun y hy => by cases hy) (fun y hy => by cases hy) (fun y hy => by cases hy),
+      fut_setXR s n none (fun y hy => by cases hy), rfl, rfl⟩
 
 theorem exec_inv_fut {P0 : Name → Prop} {s : St} (hi : Inv P0 s) (r : Req) (hg : G s r) :
     Inv P0 (exec s r).1 ∧ Fut s (exec s r).1 := by
@@ -437,21 +546,26 @@ theorem exec_inv_fut {P0 : Name → Prop} {s : St} (hi : Inv P0 s) (r : Req) (hg
       · exact ⟨hi, Fut.refl s⟩
       · split
         · exact ⟨hi, Fut.refl s⟩
-        · have hb : x.cref = some s.me → acked s n := fun h => hi.bound n ⟨x, hx, h⟩
-          refine ⟨inv_emit (inv_putXR hi n x hb (fun h => ⟨x, hx, h⟩)) _ (fun m h => by cases h) (fun m r h => ?_) (fun m h => by cases h),
-            (fut_putXR s n x (fun h => ⟨x, hx, h⟩)).trans (fut_emit _ _)⟩
-          exact was_me_of_not hx hg r (Ev.xrWrite.inj h).2
+        · rename_i hrv
+          have hrv : rv = x.rv := by simpa using hrv
+          have hb : x.cref = some s.me → acked s n := fun h => hi.bound n ⟨x, hx, h⟩
+          refine ⟨inv_emit (inv_putXR hi n x hb (fun hp h => ⟨hp, x, hx, h⟩)) _ (fun m h => by cases h) (fun m r h => by cases h)
+              (fun m r h => ?_) (fun m h => by cases h),
+            (fut_putXR s n x (fun hp h => ⟨hp, x, hx, h⟩)).trans (fut_emit _ _)⟩
+          exact was_me_of_seen hi hx (hrv ▸ hg.2) r (Ev.xrWriteG.inj h).2
   | deleteXR n fg =>
     simp only [exec]
     split
     · exact ⟨hi, Fut.refl s⟩
     · rename_i x hx
       have hcref : (if fg then { x with fin := true } else x).cref = x.cref := by split <;> rfl
-      obtain ⟨h1, h2, h3⟩ := delete_core hi hx _ hcref
-      refine ⟨inv_emit h1 _ (fun m h => by cases h) (fun m r h => ?_) (fun m h => by cases h),
+      have hrvx : (if fg then { x with fin := true } else x).rv = x.rv := by split <;> rfl
+      obtain ⟨h1, h2, h3, h4⟩ := delete_core hi hx _ hcref hrvx
+      refine ⟨inv_emit h1 _ (fun m h => by cases h) (fun m r h hp => ?_) (fun m r h => by cases h) (fun m h => by cases h),
         h2.trans (fut_emit _ _)⟩
       rw [h3]
-      exact was_me_of_not hx hg r (Ev.xrWrite.inj h).2
+      rw [h4] at hp
+      exact was_me_of_not hx hg r (Ev.xrWrite.inj h).2 hp
   | createXR n rvSet cref =>
     simp only [exec]
     split
@@ -461,9 +575,9 @@ theorem exec_inv_fut {P0 : Name → Prop} {s : St} (hi : Inv P0 s) (r : Req) (hg
       · exact ⟨hi, Fut.refl s⟩
       · obtain ⟨hack, hme⟩ := hg
         subst hme
-        refine ⟨inv_emit (inv_putXR hi n (newXR s.me) (fun _ => hack) (fun h => absurd h (not_foreignTo_of_cref rfl))) _ ?_
-            (fun m r h => by cases h) (fun m h => by cases h),
-          (fut_putXR s n (newXR s.me) (fun h => absurd h (not_foreignTo_of_cref rfl))).trans (fut_emit _ _)⟩
+        refine ⟨inv_emit (inv_putXR hi n (newXR s.me) (fun _ => hack) (fun _ h => absurd h (not_foreignTo_of_cref rfl))) _ ?_
+            (fun m r h => by cases h) (fun m r h => by cases h) (fun m h => by cases h),
+          (fut_putXR s n (newXR s.me) (fun _ h => absurd h (not_foreignTo_of_cref rfl))).trans (fut_emit _ _)⟩
         intro m hm
         cases hm
         exact hi.ackd n hack
@@ -472,50 +586,144 @@ theorem exec_inv_fut {P0 : Name → Prop} {s : St} (hi : Inv P0 s) (r : Req) (hg
     split
     · exact ⟨hi, Fut.refl s⟩
     · rename_i x hx
-      obtain ⟨⟨hack, hnfa⟩, hme⟩ := hg
+      obtain ⟨⟨⟨hack, hnfa⟩, hme⟩, hseen⟩ := hg
       subst hme
-      have key : Inv P0 (emit (putXR s n (bindXR s.me x)).1 (.xrWrite n x.cref)) ∧
-          Fut s (emit (putXR s n (bindXR s.me x)).1 (.xrWrite n x.cref)) :=
-        ⟨inv_emit (inv_putXR hi n (bindXR s.me x) (fun _ => hack) (fun h => absurd h (not_foreignTo_of_cref rfl))) _ (fun m h => by cases h)
-            (fun m r h => was_me_of_not hx hnfa r (Ev.xrWrite.inj h).2) (fun m h => by cases h),
-          (fut_putXR s n (bindXR s.me x) (fun h => absurd h (not_foreignTo_of_cref rfl))).trans (fut_emit _ _)⟩
-      repeat' split
-      all_goals first | exact ⟨hi, Fut.refl s⟩ | exact key
+      have hinv := inv_putXR hi n (bindXR s.me x) (fun _ => hack) (fun _ h => absurd h (not_foreignTo_of_cref rfl))
+      have hfut := fut_putXR s n (bindXR s.me x) (fun _ h => absurd h (not_foreignTo_of_cref rfl))
+      cases rv with
+      | none =>
+        simp only [Option.isSome_none, Bool.false_eq_true, if_false]
+        exact ⟨inv_emit hinv _ (fun m h => by cases h)
+            (fun m r h hp => was_me_of_not hx hnfa r (Ev.xrWrite.inj h).2 hp) (fun m r h => by cases h) (fun m h => by cases h),
+          hfut.trans (fut_emit _ _)⟩
+      | some v =>
+        simp only [Option.isSome_some, if_true]
+        split
+        · exact ⟨hi, Fut.refl s⟩
+        · rename_i hcond
+          have hv : v = x.rv := by simpa using hcond
+          exact ⟨inv_emit hinv _ (fun m h => by cases h) (fun m r h => by cases h)
+              (fun m r h => was_me_of_seen hi hx (hv ▸ hseen v rfl) r (Ev.xrWriteG.inj h).2) (fun m h => by cases h),
+            hfut.trans (fut_emit _ _)⟩
   | applyXR n cref =>
     simp only [exec]
     obtain ⟨⟨hack, hnfa⟩, hme⟩ := hg
     subst hme
     split
-    · refine ⟨inv_emit (inv_putXR hi n (newXR s.me) (fun _ => hack) (fun h => absurd h (not_foreignTo_of_cref rfl))) _ ?_
-          (fun m r h => by cases h) (fun m h => by cases h),
-        (fut_putXR s n (newXR s.me) (fun h => absurd h (not_foreignTo_of_cref rfl))).trans (fut_emit _ _)⟩
+    · refine ⟨inv_emit (inv_putXR hi n (newXR s.me) (fun _ => hack) (fun _ h => absurd h (not_foreignTo_of_cref rfl))) _ ?_
+          (fun m r h => by cases h) (fun m r h => by cases h) (fun m h => by cases h),
+        (fut_putXR s n (newXR s.me) (fun _ h => absurd h (not_foreignTo_of_cref rfl))).trans (fut_emit _ _)⟩
       intro m hm
       cases hm
       exact hi.ackd n hack
     · rename_i x hx
-      refine ⟨inv_emit (inv_putXR hi n (applyBindXR s.me x) (fun _ => hack) (fun h => absurd h (not_foreignTo_of_cref rfl))) _ (fun m h => by cases h)
-          (fun m r h => ?_) (fun m h => by cases h),
-        (fut_putXR s n (applyBindXR s.me x) (fun h => absurd h (not_foreignTo_of_cref rfl))).trans (fut_emit _ _)⟩
-      exact was_me_of_not hx hnfa r (Ev.xrWrite.inj h).2
+      refine ⟨inv_emit (inv_putXR hi n (applyBindXR s.me x) (fun _ => hack) (fun _ h => absurd h (not_foreignTo_of_cref rfl))) _ (fun m h => by cases h)
+          (fun m r h hp => ?_) (fun m r h => by cases h) (fun m h => by cases h),
+        (fut_putXR s n (applyBindXR s.me x) (fun _ h => absurd h (not_foreignTo_of_cref rfl))).trans (fut_emit _ _)⟩
+      exact was_me_of_not hx hnfa r (Ev.xrWrite.inj h).2 hp
 
 /-! ### environment steps -/
 
 theorem env_inv_fut {P0 : Name → Prop} {s s' : St} (hi : Inv P0 s) (he : Env s s') : Inv P0 s' ∧ Fut s s' := by
   cases he with
   | xrWrite n x x' hx hc =>
-    have hf : x'.foreignTo s.me → foreignAt s n := fun ⟨r, hr, hne⟩ => ⟨x, hx, r, hc ▸ hr, hne⟩
+    have hf : s.peers = false → x'.foreignTo s.me → foreignAt s n := fun hp ⟨r, hr, hne⟩ => ⟨hp, x, hx, r, hc ▸ hr, hne⟩
     exact ⟨inv_putXR hi n x' (fun h => hi.bound n ⟨x, hx, hc ▸ h⟩) hf, fut_putXR s n x' hf⟩
   | xrRemove n =>
-    exact ⟨inv_setXR hi n none (fun y hy => by cases hy) (fun y hy => by cases hy), fut_setXR s n none (fun y hy => by cases hy)⟩
+    exact ⟨inv_setXR hi n none (fun y hy => by cases hy) (fun y hy => by cases hy) (fun y hy => by cases hy),
+      fut_setXR s n none (fun y hy => by cases hy)⟩
+  | xrCreate n x' hx hc =>
+    have hf : s.peers = false → x'.foreignTo s.me → foreignAt s n := fun _ ⟨r, hr, _⟩ => by rw [hc] at hr; cases hr
+    exact ⟨inv_putXR hi n x' (fun h => by rw [hc] at h; cases h) hf, fut_putXR s n x' hf⟩
+  | peerWrite n x' hp hb =>
+    have hf : s.peers = false → x'.foreignTo s.me → foreignAt s n := fun h _ => by rw [hp] at h; cases h
+    exact ⟨inv_putXR hi n x' (fun h => by obtain ⟨x, hx, hc⟩ := hb h; exact hi.bound n ⟨x, hx, hc⟩) hf, fut_putXR s n x' hf⟩
+  | xrSet n x x' hx hc hr =>
+    have hxm : some x ∈ s.xhist n := hx ▸ hi.xcur n
+    have hf : ∀ y, some x' = some y → s.peers = false → y.foreignTo s.me → foreignAt s n := by
+      intro y hy hp ⟨r, hr', hne⟩
+      cases hy
+      exact ⟨hp, x, hx, r, hc ▸ hr', hne⟩
+    refine ⟨inv_setXR hi n (some x') ?_ hf ?_, fut_setXR s n (some x') hf⟩
+    · intro y hy hcy
+      cases hy
+      exact hi.bound n ⟨x, hx, hc ▸ hcy⟩
+    · intro y hy
+      cases hy
+      exact ⟨hr ▸ hi.xrvLt n x hxm, fun b hb hbr => (hi.rvU n b x hb hxm (hbr.trans hr)).trans hc.symm⟩
   | claimWrite c c' hc href hid =>
     exact ⟨inv_pushClaim_same hi hc href hid, fut_pushClaim _ _⟩
   | claimGone =>
     refine ⟨{ rvLt := hi.rvLt, mono := hi.mono, cur := fun c h => (by cases h), bound := hi.bound, ackd := hi.ackd,
-              ackHist := hi.ackHist, p0 := hi.p0, trace := hi.trace, idOk := hi.idOk, xcur := hi.xcur, xfor := hi.xfor },
-      ⟨fun _ h => h, fun _ h => h⟩⟩
+              ackHist := hi.ackHist, p0 := hi.p0, trace := hi.trace, idOk := hi.idOk, xcur := hi.xcur, xfor := hi.xfor,
+              xrvLt := hi.xrvLt, rvU := hi.rvU },
+      ⟨fun _ h => h, fun _ h => h, fun _ _ h => h, rfl⟩⟩
+  | tick k o =>
+    refine ⟨{ rvLt := fun v hv => Nat.lt_of_lt_of_le (hi.rvLt v hv) (Nat.le_add_right _ _), mono := hi.mono, cur := hi.cur,
+              bound := hi.bound, ackd := hi.ackd,
+              ackHist := hi.ackHist, p0 := hi.p0, trace := hi.trace, idOk := hi.idOk, xcur := hi.xcur, xfor := hi.xfor,
+              xrvLt := fun n x hx => Nat.lt_of_lt_of_le (hi.xrvLt n x hx) (Nat.le_add_right _ _), rvU := hi.rvU },
+      ⟨fun _ h => h, fun _ h => h, fun _ _ h => h, rfl⟩⟩
+
+/-! ### the scripted environment actions of the harness -/
+
+/-- which scripted actions are environment steps of the world `peers` for the claim `me`: a claimRef
+is only ever set by the controller of ANOTHER claim, and only where such controllers exist; an action
+on another claim's object is a claim action -/
+def EnvAct.adm (peers : Bool) (me : CRef) : EnvAct → Prop
+  | .xrCreate _ (some r) _ => peers = true ∧ r ≠ me
+  | .xrBind _ r _ => peers = true ∧ r ≠ me
+  | .other _ a => a = .claimDelete ∨ a = .claimTouch ∨ ∃ t, a = .claimRetype t
+  | _ => True
+
+/-- a claim action changes nothing but the claim under reconciliation and the resourceVersion counter -/
+theorem claimAct_frame (s : St) (a : EnvAct) (h : a = .claimDelete ∨ a = .claimTouch ∨ ∃ t, a = .claimRetype t) :
+    ∃ k, (applyEnv s a).xrs = s.xrs ∧ (applyEnv s a).xhist = s.xhist ∧ (applyEnv s a).peers = s.peers ∧
+      (applyEnv s a).others = s.others ∧ (applyEnv s a).me = s.me ∧ (applyEnv s a).nextRv = s.nextRv + k := by
+  rcases h with rfl | rfl | ⟨t, rfl⟩
+  · simp only [applyEnv]
+    split
+    · split
+      · split
+        · exact ⟨0, rfl, rfl, rfl, rfl, rfl, rfl⟩
+        · exact ⟨1, rfl, rfl, rfl, rfl, rfl, rfl⟩
+      · exact ⟨0, rfl, rfl, rfl, rfl, rfl, rfl⟩
+    · exact ⟨0, rfl, rfl, rfl, rfl, rfl, rfl⟩
+  · simp only [applyEnv]
+    split
+    · exact ⟨1, rfl, rfl, rfl, rfl, rfl, rfl⟩
+    · exact ⟨0, rfl, rfl, rfl, rfl, rfl, rfl⟩
+  · simp only [applyEnv]
+    split
+    · split
+      · split
+        · exact ⟨0, rfl, rfl, rfl, rfl, rfl, rfl⟩
+        · exact ⟨1, rfl, rfl, rfl, rfl, rfl, rfl⟩
+      · exact ⟨0, rfl, rfl, rfl, rfl, rfl, rfl⟩
+    · exact ⟨0, rfl, rfl, rfl, rfl, rfl, rfl⟩
+
+/-- switching to the claim in slot `j`, doing something that only touches that claim, and switching
+back leaves this claim's view unchanged but for the resourceVersion counter and `others` -/
+theorem swap_back (s X : St) (j : Nat) (d : Side) (hd : s.others[j]? = some d) (hx : X.xrs = s.xrs)
+    (hxh : X.xhist = s.xhist) (hp : X.peers = s.peers) (ho : X.others = s.others.set j s.side) (k : Nat)
+    (hn : X.nextRv = s.nextRv + k) :
+    swap X j = { s with nextRv := s.nextRv + k, others := X.others.set j X.side } := by
+  have hj : j < s.others.length := by
+    rcases Nat.lt_or_ge j s.others.length with h | h
+    · exact h
+    · rw [List.getElem?_eq_none h] at hd; cases hd
+  have hget : X.others[j]? = some s.side := by
+    rw [ho, List.getElem?_set_self hj]
+  unfold swap
+  rw [hget]
+  obtain ⟨me, claim, hist, xrs, xhist, nextRv, trace, peers, others⟩ := s
+  obtain ⟨me', claim', hist', xrs', xhist', nextRv', trace', peers', others'⟩ := X
+  simp only [St.load, St.side] at *
+  subst hx hxh hp hn
+  rfl
 
 /-- the scripted environment actions of the harness are environment steps (or no-ops) -/
-theorem applyEnv_env (s : St) (a : EnvAct) : applyEnv s a = s ∨ Env s (applyEnv s a) := by
+theorem applyEnv_env (s : St) (a : EnvAct) (h : a.adm s.peers s.me) : applyEnv s a = s ∨ Env s (applyEnv s a) := by
   cases a with
   | xrTouch n g =>
     simp only [applyEnv]
@@ -564,5 +772,49 @@ theorem applyEnv_env (s : St) (a : EnvAct) : applyEnv s a = s ∨ Env s (applyEn
           simp [Claim.refName, hr, mkXRef]
       · exact Or.inl rfl
     · exact Or.inl rfl
+  | xrCreate n r uid =>
+    simp only [applyEnv]
+    split
+    · exact Or.inl rfl
+    · rename_i hx
+      cases r with
+      | none => exact Or.inr (Env.xrCreate s n _ hx rfl)
+      | some r =>
+        obtain ⟨hp, hne⟩ := h
+        exact Or.inr (Env.peerWrite s n _ hp (fun hc => absurd (Option.some.inj hc) hne))
+  | xrBind n r uid =>
+    obtain ⟨hp, hne⟩ := h
+    simp only [applyEnv]
+    split
+    · split
+      · exact Or.inl rfl
+      · exact Or.inr (Env.peerWrite s n _ hp (fun hc => absurd (Option.some.inj hc) hne))
+    · exact Or.inl rfl
+  | other j a =>
+    simp only [applyEnv]
+    split
+    · rename_i d hd
+      have hj : j < s.others.length := by
+        rcases Nat.lt_or_ge j s.others.length with h' | h'
+        · exact h'
+        · rw [List.getElem?_eq_none h'] at hd; cases hd
+      obtain ⟨k, h1, h2, h3, h4, _, h6⟩ := claimAct_frame (swap s j) a h
+      have hsw : swap s j = { s.load d with others := s.others.set j s.side } := by
+        unfold swap; rw [hd]
+      rw [hsw] at h1 h2 h3 h4 h6
+      rw [hsw]
+      have := swap_back s (applyEnv { s.load d with others := s.others.set j s.side } a) j d hd h1 h2 h3 h4 k h6
+      rw [this]
+      exact Or.inr (Env.tick s k _)
+    · exact Or.inl rfl
+
+theorem env_me_peers {s s' : St} (h : Env s s') : s'.me = s.me ∧ s'.peers = s.peers := by
+  cases h <;> exact ⟨rfl, rfl⟩
+
+theorem applyEnv_me_peers (s : St) (a : EnvAct) (h : a.adm s.peers s.me) :
+    (applyEnv s a).me = s.me ∧ (applyEnv s a).peers = s.peers := by
+  rcases applyEnv_env s a h with e | e
+  · rw [e]; exact ⟨rfl, rfl⟩
+  · exact env_me_peers e
 
 end Xp.C06
